@@ -1,6 +1,7 @@
 import SJ.Props.C02
 import SJ.Props.C02Map
 import SJ.Props.C06Int
+import SJ.Props.C01Ap
 #print axioms SJ.Props.C02Map.c02_bytesLt_strict_total_order
 #print axioms SJ.Props.C02Map.c02_mkObj_eq_objectOf
 #print axioms SJ.Props.C02Map.c02_canonM_eq_canon
@@ -20,3 +21,5 @@ import SJ.Props.C06Int
 #print axioms SJ.Props.C02.c02_array_order
 #print axioms SJ.Props.C02.c02_string_is_decoded_text
 #print axioms SJ.Props.C02.c02_side_conditions
+#print axioms SJ.Props.C01Ap.c02_ap_value_is_canon_tokenfree
+#print axioms SJ.Props.C01Ap.c01_ap_token_language
